@@ -202,9 +202,9 @@ def _fixed_retarder(name, cls, d):
         e1 = complex(math.cos(d / 2), math.sin(d / 2))
         if c.mode != 'num':
             # exact values of exp(-+ i d/2) for d = pi/2, pi
-            r2 = S.sp.sqrt(2) / 2
-            ex = {math.pi / 2: (r2 - S.sp.I * r2, r2 + S.sp.I * r2), math.pi: (-S.sp.I, S.sp.I)}[d]
-            e0, e1 = S.Sym(ex[0]), S.Sym(ex[1])
+            r2 = c.sqrt(2) / 2
+            I_ = S.Sym(S.sp.I)
+            e0, e1 = {math.pi / 2: (r2 - I_ * r2, r2 + I_ * r2), math.pi: (-I_, I_)}[d]
         spec = _rot_conj(c, th, e0, e1)
         for i in range(2):
             for j in range(2):
